@@ -4411,7 +4411,7 @@ EmitModVSib:
   }
   else {
     // 16-bit address mode (32-bit mode with 67 override prefix).
-    rel_offset = (int32_t(rm_rel->as<Mem>().offset_lo32()) << 16) >> 16;
+    rel_offset = int32_t(int16_t(uint16_t(uint32_t(rm_rel->as<Mem>().offset_lo32()) & 0xFFFFu)));
 
     // NOTE: 16-bit addresses don't use SIB byte and their encoding differs. We use a table-based approach to
     // calculate the proper MOD byte as it's easier. Also, not all BASE [+ INDEX] combinations are supported
